@@ -707,7 +707,7 @@ def run_one(tape, only=None):
             try:
                 ex.run()
             except Exception as e:  # noqa: harness or typhon bug outside a block
-                ex.V.append(_viol("C12/harness/exception",
+                ex.V.append(_viol("C12/exception-outside-a-block",
                                   f"{type(e).__name__}: {e}"))
         finally:
             _real_shutil.rmtree(root, ignore_errors=True)
